@@ -5,12 +5,20 @@ in longdouble; chord = 2 R sin(angle/2)), symmetry, exact zero for identical
 arguments, <= half circumference / diameter, chord = 2 R sin(arc / 2R),
 invariance under common longitude shifts. All ordered triples: triangle
 inequality. Tolerances are the float64 conditioning bounds of c07_ref.
+
+Modes "repr/<rep>/<form>/<n>": the same pair checks on REPR_LATTICES (values
+exact in the representation) with the arguments at the positions
+subsets(5)[n] of (lat1, lon1, lat2, lon2, r) in a representation of
+c07_common.REPRS. The statement gives the distances no absolute tolerance:
+with a float32 argument the conditioning bounds are those of float32
+arithmetic; symmetry, exact zero and the upper bounds are demanded as always.
 """
 import numpy as np
 
 from mc import driver
 from checks import c07_ref as ref
-from checks.c07_common import same
+from checks.c07_common import (HALF_DEGREES, REPR_MODES, convert, exact,
+                                representation_key, same, subsets)
 
 LATTICES = {
     # 5 x 8: equator, both sides of +-180, exact antipodes such as
@@ -21,9 +29,18 @@ LATTICES = {
                  [-180.0, -179.999, -135.0, -90.0, -45.0, 0.0, 0.001, 45.0,
                   90.0, 135.0, 179.999, 180.0]),
 }
+# whole and half degrees; the integer representations take the whole ones
+REPR_LATTICES = {
+    "quick": ([-88.0, 0.0, 30.5, 45.0], [-180.0, -90.5, 0.0, 91.0, 180.0]),
+    "thorough": tuple(exact("float32", axis + HALF_DEGREES)
+                      for axis in LATTICES["thorough"]),
+}
 SHIFTS = [0.0, 30.0, 180.0, 360.0, -270.0]
 MODES = ("scalar", "flat", "grid", "bcast")
+REPR_PAIR_MODES = ["repr/%s/%s/%d" % (rep, form, n) for rep, form in REPR_MODES
+                   for n in range(len(subsets(5)))]
 DIMS = {"scalar": "scalar", "flat": "1-D", "grid": "N-D", "bcast": "N-D"}
+FORMS = {"scalar": "scalar", "1-D": "flat", "2-D": "grid"}
 FUNCS = ("great_circle_distance[deg]", "great_circle_distance[m]",
          "tunnel_distance")
 
@@ -33,15 +50,26 @@ def earth_radius():
     return constants.earth_radius
 
 
-def lattice(name):
-    lats, lons = LATTICES[name]
+def parse(mode):
+    """(call form, representation or None, argument positions given in it)"""
+    if mode in MODES:
+        return mode, None, ()
+    _, rep, form, n = mode.split("/")
+    return FORMS[form], rep, subsets(5)[int(n)]
+
+
+def lattice(name, mode="flat"):
+    rep = parse(mode)[1]
+    lats, lons = LATTICES[name] if rep is None else \
+        (exact(rep, axis) for axis in REPR_LATTICES[name])
     lat, lon = np.meshgrid(lats, lons, indexing="ij")
     return lat.ravel(), lon.ravel()
 
 
 def shards(tier, seed):
     n = lattice(tier)[0].size
-    return [("dist", "pairs", tier, mode) for mode in MODES] + \
+    return [("dist", "pairs", tier, mode)
+            for mode in list(MODES) + REPR_PAIR_MODES] + \
         [("dist", "triples", tier, i) for i in range(n)]
 
 
@@ -50,7 +78,8 @@ def typhon_matrices(mode, lat, lon):
     (None, violation) if a function cannot be used with this kind of
     argument (exception, or not one value per pair)."""
     from typhon import geodesy
-    radius = earth_radius()
+    mode, rep, which = parse(mode)
+    radius = convert(earth_radius(), rep) if 4 in which else earth_radius()
     calls = {
         FUNCS[0]: lambda *p: geodesy.great_circle_distance(*p),
         FUNCS[1]: lambda *p: geodesy.great_circle_distance(*p, r=radius),
@@ -66,6 +95,8 @@ def typhon_matrices(mode, lat, lon):
         argsets = [(lat[i], lon[i], lat[j], lon[j])]
         if mode == "scalar":
             argsets = [tuple(float(v) for v in p) for p in zip(*argsets[0])]
+    argsets = [tuple(convert(v, rep) if k in which else v
+                     for k, v in enumerate(p)) for p in argsets]
     out = {}
     for name, func in calls.items():
         key = "%s/unusable-with-%s-arguments" % (name, DIMS[mode])
@@ -84,17 +115,18 @@ def typhon_matrices(mode, lat, lon):
 
 
 class Oracle:
-    def __init__(self, lat, lon):
+    def __init__(self, lat, lon, eps=ref.EPS):
         radius = ref.LD(earth_radius())
         self.angle, self.a = ref.central_angle(
             lat[:, None], lon[:, None], lat[None, :], lon[None, :])
-        atol = ref.arc_tolerance(self.angle, self.a)
+        atol = ref.arc_tolerance(self.angle, self.a, eps=eps)
         chord = 2 * radius * np.sin(self.angle / 2)
         self.value = {FUNCS[0]: self.angle / ref.RAD,
                       FUNCS[1]: radius * self.angle, FUNCS[2]: chord}
         self.tol = {FUNCS[0]: atol / ref.RAD, FUNCS[1]: radius * atol,
-                    FUNCS[2]: ref.chord_tolerance(chord, float(radius))}
-        ulps = 1 + 4 * ref.EPS
+                    FUNCS[2]: ref.chord_tolerance(chord, float(radius),
+                                                  eps=eps)}
+        ulps = 1 + 4 * eps
         self.bound = {FUNCS[0]: 180 * ulps, FUNCS[1]: ref.PI * radius * ulps,
                       FUNCS[2]: 2 * radius + self.tol[FUNCS[2]]}
         # d/dc of 2 R sin(c / 2) is cos(c / 2) = sqrt(1 - a), taken over the
@@ -109,16 +141,30 @@ def first(mask):
     return tuple(int(v) for v in idx[0]) if len(idx) else None
 
 
+def pairs_verdict(lat, lon, mode):
+    """check_pairs; a violation of a "repr" mode that the same values given
+    as float64 do not produce is attributed to the representation."""
+    found = check_pairs(lat, lon, mode)
+    form, rep, _ = parse(mode)
+    if found and rep:
+        plain = {bad[0] for bad in check_pairs(lat, lon, form)}
+        found = [bad if bad[0] in plain else
+                 (representation_key(bad[0], rep),) + bad[1:]
+                 for bad in found]
+    return found
+
+
 def check_pairs(lat, lon, mode):
     """List of (key, (i, j), shift, expected, observed, msg)."""
     found = []
     radius = ref.LD(earth_radius())
+    eps = ref.EPS32 if parse(mode)[1] == "float32" else ref.EPS
     base = base_oracle = None
     for shift in SHIFTS:
         mats, bad = typhon_matrices(mode, lat, lon + shift)
         if bad:
             return found + [(bad[0], None, shift) + bad[1:]]
-        oracle = Oracle(lat, lon + shift)
+        oracle = Oracle(lat, lon + shift, eps)
         if shift == 0:
             base, base_oracle = mats, oracle
         for name in FUNCS:
@@ -175,10 +221,10 @@ def check_triples(lat, lon, i):
 
 def run_shard(shard):
     _, what, tier, arg = shard
-    lat, lon = lattice(tier)
+    lat, lon = lattice(tier, arg if what == "pairs" else "flat")
     n = lat.size
     res = driver.ShardResult()
-    run = (lambda: check_pairs(lat, lon, arg)) if what == "pairs" else \
+    run = (lambda: pairs_verdict(lat, lon, arg)) if what == "pairs" else \
         (lambda: check_triples(lat, lon, arg))
     found = run()
     if found and not same(run(), found):
@@ -204,8 +250,9 @@ def run_shard(shard):
 
 
 def replay(case):
-    lat, lon = lattice(case["lattice"])
-    found = check_pairs(lat, lon, case["arg"]) if case["what"] == "pairs" \
+    pairs = case["what"] == "pairs"
+    lat, lon = lattice(case["lattice"], case["arg"] if pairs else "flat")
+    found = pairs_verdict(lat, lon, case["arg"]) if pairs \
         else check_triples(lat, lon, case["arg"])
     for key, at, shift, expected, observed, msg in found:
         if key == case["check"]:
